@@ -89,7 +89,7 @@ def start_of(p):
     return var, idx
 
 
-def run_config(ctx, rep, cfg, F, funcs=None, floor=800):
+def run_config(ctx, rep, cfg, F, funcs=None, floor=1600):
     n = 0
     for short, (kind, rule) in (funcs or FUNCS).items():
         if short not in F.short:
